@@ -94,6 +94,36 @@ class Transient:
         return 'u'
 
 
+class CINode:
+    """A node of an application that names its ids itself (the tag is told
+    with id=myid); what its tpId says is something else."""
+
+    def __init__(self, nid, children=()):
+        self.nid = nid
+        self.children = list(children)
+
+    def tpValues(self):
+        return self.children
+
+    def myid(self):
+        return self.nid
+
+    def tpId(self):
+        return 'other'
+
+    def tpURL(self):
+        return 'u'
+
+
+class CINodePlain(CINode):
+    """... or that has no tpId at all and keeps the id in an attribute."""
+    tpId = property()
+
+    def __init__(self, nid, children=()):
+        CINode.__init__(self, nid, children)
+        self.myid = nid
+
+
 def build(spec, opts=False, memo=None):
     """spec = [id, [child specs]].  Harness options (not tag options):
     'leaf-objects': childless nodes are objects without a tpValues method;
@@ -111,6 +141,10 @@ def build(spec, opts=False, memo=None):
             return memo[key]
     if 'leaf-objects' in opts and not spec[1]:
         n = Leaf(spec[0])
+    elif 'custom-id-attr' in opts:
+        n = CINodePlain(spec[0], [build(c, opts, memo) for c in spec[1]])
+    elif 'custom-id' in opts:
+        n = CINode(spec[0], [build(c, opts, memo) for c in spec[1]])
     else:
         n = Node(spec[0], [build(c, opts, memo) for c in spec[1]])
     if memo is not None:
@@ -118,7 +152,8 @@ def build(spec, opts=False, memo=None):
     return n
 
 
-HARNESS_OPTS = ('leaf-objects', 'shared-objects', 'transient-nodes')
+HARNESS_OPTS = ('leaf-objects', 'shared-objects', 'transient-nodes',
+                'custom-id-attr', 'custom-id')
 
 
 _T = {}
@@ -129,7 +164,9 @@ _T = {}
 OPTIONS = ['', 'assume_children', 'reverse', 'sort=nid', 'nowrap',
            'assume_children reverse', 'sort=nid reverse', 'leaf-objects',
            'leaf-objects reverse', 'transient-nodes', 'shared-objects',
-           'transient-nodes sort=nid reverse']
+           'transient-nodes sort=nid reverse',
+           # the application names its ids itself: id=myid
+           'custom-id', 'custom-id-attr', 'custom-id reverse']
 
 
 def template(opts=''):
@@ -138,8 +175,12 @@ def template(opts=''):
         tag_opts = opts
         for h in HARNESS_OPTS:
             tag_opts = tag_opts.replace(h, '')
-        _T[opts] = HTML('<dtml-tree root %s>⟦<dtml-var tpId>⟧</dtml-tree>'
-                        % tag_opts.strip())
+        idname = 'tpId'
+        if 'custom-id' in opts:
+            idname = 'myid'
+            tag_opts += ' id=myid'
+        _T[opts] = HTML('<dtml-tree root %s>⟦<dtml-var %s>⟧</dtml-tree>'
+                        % (tag_opts.strip(), idname))
     return _T[opts]
 
 
